@@ -655,6 +655,19 @@ func (b *txBuilder) Build(spec TxSpec) *BuiltTx {
 	if err != nil {
 		panic(err)
 	}
+	if strings.HasPrefix(spec.Mut, "pre-check-") && spec.Type == "RedeemCheck" {
+		if e2, ok := rewriteCheck(enc, spec.Mut); ok {
+			enc = e2
+			abs["noncanon"] = true
+		}
+	}
+	if strings.HasPrefix(spec.Mut, "pre-data-") {
+		// the data field is re-encoded non-canonically BEFORE signing: the signature covers exactly these bytes
+		if e2, ok := rewriteData(enc, spec.Mut); ok {
+			enc = e2
+			abs["noncanon"] = true
+		}
+	}
 	chain := spec.Chain
 	if chain == 0 {
 		chain = int(types.CurrentChainID)
@@ -713,7 +726,12 @@ func (b *txBuilder) Build(spec TxSpec) *BuiltTx {
 		// a single signature makes the signing key's address the sender, whatever "from" says
 		bt.Sender = b.n.AddrName(b.n.Addr(signers[0]))
 	}
-	if spec.Mut != "" {
+	if strings.HasPrefix(spec.Mut, "nc-") {
+		if r2, ok := rewriteNonCanonical(bt.Raw, spec.Mut); ok {
+			bt.Raw = r2
+			bt.Abs["noncanon"] = true
+		}
+	} else if spec.Mut != "" && !strings.HasPrefix(spec.Mut, "pre-data-") && !strings.HasPrefix(spec.Mut, "pre-check-") {
 		applyMutation(bt, &tx, spec.Mut, b)
 		if bytes.Equal(bt.Raw, raw) {
 			// the mutation changed nothing (e.g. huge-gasprice on a transaction that was already signed with that gas price):
@@ -834,4 +852,22 @@ func (b *txBuilder) routeQuote(coins []types.CoinID, amount *big.Int, sell bool)
 		}
 	}
 	return v
+}
+
+// recoveredSender decodes raw the way the node does and names the account it would take the transaction from ("" if it does not decode).
+func recoveredSender(n *Names, raw []byte) (name string) {
+	defer func() {
+		if recover() != nil {
+			name = ""
+		}
+	}()
+	tx, err := transaction.NewExecutorV3(transaction.GetDataV3).DecodeFromBytes(raw)
+	if err != nil {
+		return ""
+	}
+	s, err := tx.Sender()
+	if err != nil {
+		return ""
+	}
+	return n.AddrName(s)
 }
